@@ -108,7 +108,7 @@ def run(R, tier, seed, driver_ok):
         # --- model replay
         u, l = float(est.bounds_[0]), float(est.bounds_[1])
         lines.append(f'itml_run {d} {len(V)} {len(pos)} {f2b(gamma)} {f2b(tol)} {max_iter} {f2b(u)} {f2b(l)} {bits(A0)} {bits(V)}')
-        meta.append((M, int(est.n_iter_), V, sgn, A0, gamma, tol, max_iter, case))
+        meta.append((M, int(est.n_iter_), V, sgn, A0, gamma, tol, max_iter, case, u, l))
         # sensitivity probe: the same replay on inputs perturbed in the last bit measures how much the solver
         # amplifies rounding on this instance (the tolerance of the comparison is calibrated on it)
         A0p = A0 * (1 + 2.2e-16 * rng.randn(*A0.shape)); A0p = (A0p + A0p.T) / 2
@@ -124,7 +124,7 @@ def run(R, tier, seed, driver_ok):
         for oi, (o, mt) in enumerate(zip(outs, meta)):
             if mt is None:
                 continue
-            M, nit, V, sgn, A0, gamma, tol, max_iter, case = mt
+            M, nit, V, sgn, A0, gamma, tol, max_iter, case, u, l = mt
             tk = o.split()
             tkp = outs[oi + 1].split()
             if tk[0] != 'ok':
@@ -156,6 +156,12 @@ def run(R, tier, seed, driver_ok):
             cond = np.linalg.cond(M) * np.linalg.cond(A0)
             if stat > 10 * (1e-9 + tol_rel) * max(np.linalg.cond(M), 1):
                 R.violation('ITML/stationarity', f'M⁻¹ ≠ M0⁻¹ + Σ y_i λ_i v_i v_iᵀ with the solver\'s duals (relative {stat:.3g})', case)
+            # the slack variables satisfy their own stationarity equation γ(1/ξ0 − 1/ξ) = y λ at every step
+            # (SlackInv in MLProps/C11.lean, hypothesis `hslack` of C11_kkt_optimal_unique)
+            xi0 = np.where(sgn > 0, u, l)
+            sl = np.abs(1 / xi - (1 / xi0 - sgn * lam / gamma))
+            if (sl / (1 / xi + 1 / xi0 + np.abs(lam) / gamma)).max() > 1e-7:
+                R.violation('ITML/slack-stationarity', f'1/ξ ≠ 1/ξ0 − y λ/γ with the solver\'s duals (relative {(sl / (1 / xi + 1 / xi0 + np.abs(lam) / gamma)).max():.3g})', case)
             converged = nit < max_iter - 1 and tol <= 1e-9
             if converged:
                 gp = gamma / (gamma + 1)
